@@ -311,6 +311,33 @@ def restore {ρ : Type} (H : Bytes → Bytes) (apply : M → Bytes → Option M)
   | .error e => .error e
   | .ok (m, st) => .ok (raftRestore m st)
 
+/-- Kinds of damage to the gzip file outside the compressed tar data. -/
+inductive GzDamage
+  | trailer          -- a change confined to the 8 trailer bytes (CRC32, ISIZE)
+  | truncated        -- the file ends early, anywhere
+  | garbageAfter     -- bytes that are not a gzip member follow the member
+  | dataMemberAfter  -- a well-formed gzip member with non-empty content follows
+  | emptyMemberAfter -- a well-formed gzip member with empty content follows
+deriving DecidableEq, Repr
+
+/-- What `compress/gzip` is trusted to present for each kind of damage, relative to the view `g0`
+    of the undamaged file (validated by enumeration in the harness, not proved):
+      * trailer change / truncation: the reader reports it — as a failed header, as a read error
+        somewhere inside the tar data (a member cut short or `Next` failing), or, when the tar
+        reader got everything it asked for, as an error when `concludeGzipRead` drains the stream
+        (`gzip.Reader` verifies CRC32 and ISIZE when it reaches the end of the member);
+      * garbage after the member: multistream mode tries to read another header and fails, while
+        draining;
+      * a further member with data: its bytes come out while draining;
+      * a further empty member: nothing more comes out, clean EOF. -/
+def GzContract (d : GzDamage) (g0 g : GzStream) : Prop :=
+  match d with
+  | .trailer | .truncated =>
+    g.headerOk = false ∨ g.tail = .corrupt ∨ g.inner.ending = .err ∨ ∃ x ∈ g.inner.members, x.short = true
+  | .garbageAfter => g.headerOk = g0.headerOk ∧ g.inner = g0.inner ∧ g.tail = .corrupt
+  | .dataMemberAfter => g.headerOk = g0.headerOk ∧ g.inner = g0.inner ∧ g.tail = .extra
+  | .emptyMemberAfter => g.headerOk = g0.headerOk ∧ g.inner = g0.inner ∧ g.tail = g0.tail
+
 /-! ## byte layer: ustar framing -/
 
 inductive Cls
@@ -403,6 +430,88 @@ def flipFrom (val : Nat) : Nat → List (Bytes × Bytes) → Nat → List Stream
     else (flipFrom val (off + slot x.2.length) ms pos).map (consM (full x))
 
 def flipViews (ms : List (Bytes × Bytes)) (pos val : Nat) : List Stream := flipFrom val 0 ms pos
+
+/-! ## ustar header block: what `archive/tar` is trusted to do with it
+
+`Reader.readHeader` → `block.getFormat` first verifies the header checksum and only then uses any
+field: the stored value is `parseOctal(block[148:156])`, the computed values are the sum of all 512
+bytes with the 8 checksum bytes counted as spaces, once with bytes as unsigned and once as signed
+numbers; the block is a header only if parsing succeeded and the stored value equals one of the
+two sums (otherwise `ErrHeader`). `parseOctal` = trim leading/trailing spaces and NULs, empty ⇒ 0,
+cut at the first NUL, `strconv.ParseUint(·, 8, 64)`. That — and nothing else of `archive/tar`'s
+header handling — is what the byte-level theorems rely on. -/
+
+/-- bytes at block offsets `lo ≤ · < hi`; `i` is the offset of the head of the list -/
+def slice (lo hi : Nat) : Nat → Bytes → Bytes
+  | _, [] => []
+  | i, b :: r => if lo ≤ i ∧ i < hi then b :: slice lo hi (i + 1) r else slice lo hi (i + 1) r
+
+/-- the 8-byte checksum field -/
+def chkField (blk : Bytes) : Bytes := slice 148 156 0 blk
+
+def isTrim (b : Nat) : Bool := b == 32 || b == 0
+
+def trimBoth (l : Bytes) : Bytes := ((l.dropWhile isTrim).reverse.dropWhile isTrim).reverse
+
+/-- `parser.parseString`: up to the first NUL -/
+def cutNul (l : Bytes) : Bytes := l.takeWhile (· != 0)
+
+/-- `strconv.ParseUint(s, 8, 64)` on a non-empty digit string (fields are at most 12 bytes: no
+    overflow); `none` = syntax error -/
+def octValue : Nat → Bytes → Option Nat
+  | acc, [] => some acc
+  | acc, c :: r => if 48 ≤ c ∧ c ≤ 55 then octValue (acc * 8 + (c - 48)) r else none
+
+/-- `parser.parseOctal` -/
+def parseOctal (f : Bytes) : Option Nat :=
+  let t := trimBoth f
+  if t = [] then some 0
+  else match cutNul t with
+    | [] => none
+    | d => octValue 0 d
+
+/-- unsigned checksum: all bytes, the checksum field counted as eight spaces -/
+def sumU : Nat → Bytes → Nat
+  | _, [] => 0
+  | i, b :: r => (if 148 ≤ i ∧ i < 156 then 32 else b) + sumU (i + 1) r
+
+/-- a byte read as a signed 8-bit number -/
+def sbyte (b : Nat) : Int := if b < 128 then (b : Int) else (b : Int) - 256
+
+/-- signed checksum (old Sun tar), same convention -/
+def sumS : Nat → Bytes → Int
+  | _, [] => 0
+  | i, b :: r => (if 148 ≤ i ∧ i < 156 then (32 : Int) else sbyte b) + sumS (i + 1) r
+
+/-- `getFormat`'s gate: the stored checksum parses and equals the unsigned or the signed sum -/
+def checksumOK (blk : Bytes) : Bool :=
+  match parseOctal (chkField blk) with
+  | none => false
+  | some w => decide (w = sumU 0 blk) || decide ((w : Int) = sumS 0 blk)
+
+/-- `hdr.Name` of a plain ustar/V7 header: NUL-terminated bytes of the name field (the ustar
+    prefix field, PAX and GNU long names are not modelled: `write` never produces them) -/
+def hdrName (blk : Bytes) : Bytes := cutNul (slice 0 100 0 blk)
+
+/-- `hdr.Size` when the size field is octal (`none`: not octal or base-256) -/
+def hdrSize (blk : Bytes) : Option Nat :=
+  match slice 124 136 0 blk with
+  | [] => none
+  | b :: r => if 128 ≤ b then none else parseOctal (b :: r)
+
+/-- `flipViews` made exact with the header blocks at hand: a changed header byte leaves the
+    reader's view as it was when the block still passes the checksum gate, and makes `Next` fail
+    there otherwise. (`hs` = the header block of each member, in order.) -/
+def flipFromH (val : Nat) : Nat → List Bytes → List (Bytes × Bytes) → Nat → List Stream
+  | off, h :: hs, x :: ms, pos =>
+    if pos < off + 512 then
+      if checksumOK (h.set (pos - off) val) then [⟨(x :: ms).map full, .eof⟩] else [⟨[], .err⟩]
+    else if pos < off + slot x.2.length then flipFrom val off (x :: ms) pos
+    else (flipFromH val (off + slot x.2.length) hs ms pos).map (consM (full x))
+  | off, _, ms, pos => flipFrom val off ms pos
+
+def flipViewsH (hs : List Bytes) (ms : List (Bytes × Bytes)) (pos val : Nat) : List Stream :=
+  flipFromH val 0 hs ms pos
 
 /-! ## specification vocabulary (used by the theorems, not by the engine) -/
 
